@@ -221,3 +221,161 @@ Print Assumptions C18_subroutine_cfg_gen_exact.
 Print Assumptions C18_short_notation_gen_eq.
 Print Assumptions C18_filter_paths_gen_spec.
 Print Assumptions C18_generate_output_gen_marks.
+
+(* ------------------------------------------------------------------------------------------------------------
+   Extension (report producers regenerated): Lemmas/ReportGenLemmas.v about Gen/ReportGen.v, the translation of
+   ExecutionPaths.to_json, __main__.py handle_output and the filter / report slices of main, the transaction-context
+   printer annotations and the human-summary printer; values, not text layout.  *)
+From Coq Require Import String List NArith ZArith Bool Arith.
+From Tealer Require Import Tables LeafPrelude Syntax Parse Cfg Keys Analysis Domains Detect KeysGen Output OutputGen ReportGen CfgLemmas SubLemmas GraphWf OutputLemmas OutputGenLemmas VersionLemmas VersionGenLemmas ReportGenLemmas.
+
+(* regenerated to_json is the paths report of the model *)
+Theorem C18_to_json_gen_parsed :
+      forall (p : prog) (t : teal) (meta : detmeta) (det : string) (paths : list (list nat)),
+       parse_teal p = Ok t ->
+       (forall (path : list nat) (n : nat), In path paths -> In n path -> In n (full_cfg_nodes t)) ->
+       to_json_gen t meta paths det = Some (paths_report t meta det paths).
+Proof. exact @to_json_gen_parsed. Qed.
+
+(* the JSON paths entry lists exactly the reported paths in order, each with its short notation and blocks, and count is their number *)
+Theorem C18_to_json_gen_paths :
+      forall (p : prog) (t : teal) (meta : detmeta) (det : string) (paths : list (list nat)),
+       parse_teal p = Ok t ->
+       (forall (path : list nat) (n : nat), In path paths -> In n path -> In n (full_cfg_nodes t)) ->
+       exists (j : json) (listed : list json),
+         to_json_gen t meta paths det = Some j /\
+         jfield "check" j = Some (JStr det) /\
+         jfield "count" j = Some (JNum (Datatypes.length listed)) /\
+         jfield "paths" j = Some (JList listed) /\
+         Datatypes.length listed = Datatypes.length paths /\
+         (forall (i : nat) (path : list nat),
+          nth_error paths i = Some path ->
+          nth_error listed i =
+          Some
+            (JObj
+               (("short", JStr (short_notation path))
+                :: ("blocks", JList (map (fun n : nat => block_json (json_block_rows t n)) path)) :: nil))).
+Proof. exact @to_json_gen_paths. Qed.
+
+(* JSON mode of handle_output: the envelope with success, error and every detector result in order *)
+Theorem C18_handle_output_gen_json :
+      forall (Other : Type) (other_detector : Other -> string) (other_to_json : Other -> py json)
+         (other_generate_output : Other -> list string -> py bool) (meta : detmeta)
+         (contract_name_of : teal -> string) (root : list string) (file : string)
+         (detector_results : list (list (output Other))) (teal : teal) (error : option string),
+       (forall o : output Other, In o (concat detector_results) -> out_ok Other other_to_json o) ->
+       let doc := envelope error (map (json_of Other other_to_json meta) (concat detector_results)) in
+       handle Other other_detector other_to_json other_generate_output meta contract_name_of root 
+         (Some file) detector_results teal error =
+       Some
+         (if file =? "-"
+          then RepJsonStdout doc :: nil
+          else
+           RepJsonNotice (root ++ (contract_name_of teal :: nil) ++ file :: nil)
+           :: RepJsonFile (root ++ (contract_name_of teal :: nil) ++ file :: nil) doc :: nil, None) /\
+       jfield "success" doc = Some (JBool match error with
+                                          | Some _ => false
+                                          | None => true
+                                          end) /\
+       jfield "error" doc = Some (jopt JStr error) /\
+       jfield "result" doc = Some (JList (map (json_of Other other_to_json meta) (concat detector_results))).
+Proof. exact @handle_output_gen_json. Qed.
+
+(* text mode with an error *)
+Theorem C18_handle_output_gen_text_error :
+      forall (Other : Type) (other_detector : Other -> string) (other_to_json : Other -> py json)
+         (other_generate_output : Other -> list string -> py bool) (meta : detmeta)
+         (contract_name_of : teal -> string) (root : list string)
+         (detector_results : list (list (output Other))) (teal : teal) (e : string),
+       handle Other other_detector other_to_json other_generate_output meta contract_name_of root None
+         detector_results teal (Some e) = Some (RepError e :: nil, Some (-1)%Z).
+Proof. exact @handle_output_gen_text_error. Qed.
+
+(* detect with a filter in JSON mode: count and listed paths are those after the filter *)
+Theorem C18_main_detect_json_filtered :
+      forall (Other : Type) (other_detector : Other -> string) (other_to_json : Other -> py json)
+         (other_generate_output : Other -> list string -> py bool) (meta : detmeta)
+         (contract_name_of : teal -> string) (root : list string) (re_search : string -> string -> py bool)
+         (search : string -> string -> bool) (pattern : string) (results : list (list (output Other)))
+         (t : teal),
+       (forall text : string, re_search pattern text = Some (search pattern text)) ->
+       (forall o : output Other, In o (concat results) -> out_ok Other other_to_json o) ->
+       exists results' : list (list (output Other)),
+         main_filter_gen Other re_search (Some pattern) results = Some results' /\
+         main_report Other other_detector other_to_json other_generate_output meta contract_name_of root
+           (Some "-") "detect" results' (Some t) None =
+         Some
+           (RepJsonStdout (envelope None (map (json_of Other other_to_json meta) (concat results'))) :: nil,
+            None) /\
+         concat results' = map (filter_output Other search pattern) (concat results) /\
+         (forall (t' : teal) (d : string) (ps : list (list nat)),
+          json_of Other other_to_json meta (filter_output Other search pattern (OExecutionPaths t' d ps)) =
+          paths_report t' meta d (filter_paths search pattern ps)).
+Proof. exact @main_detect_json_filtered. Qed.
+
+(* the last statement of main *)
+Theorem C18_main_report_gen_eq :
+      forall (Other : Type) (other_detector : Other -> string) (other_to_json : Other -> py json)
+         (other_generate_output : Other -> list string -> py bool) (meta : detmeta)
+         (contract_name_of : teal -> string) (root : list string) (args_json : option string)
+         (subcommand : string) (results : list (list (output Other))) (tealer_contract : py teal)
+         (error : option string),
+       main_report Other other_detector other_to_json other_generate_output meta contract_name_of root
+         args_json subcommand results tealer_contract error =
+       (if opt_text_truthy error || (subcommand =? "detect")
+        then
+         bind tealer_contract
+           (fun t : teal =>
+            handle Other other_detector other_to_json other_generate_output meta contract_name_of root
+              args_json results t error)
+        else Some (nil, None)).
+Proof. exact @main_report_gen_eq. Qed.
+
+(* observation: an error raised before the contract is bound never reaches the envelope *)
+Theorem C18_main_report_unbound_contract :
+      forall (Other : Type) (other_detector : Other -> string) (other_to_json : Other -> py json)
+         (other_generate_output : Other -> list string -> py bool) (meta : detmeta)
+         (contract_name_of : teal -> string) (root : list string) (args_json : option string)
+         (subcommand : string) (results : list (list (output Other))) (e : string),
+       e <> "" ->
+       main_report Other other_detector other_to_json other_generate_output meta contract_name_of root
+         args_json subcommand results None (Some e) = None.
+Proof. exact @main_report_unbound_contract. Qed.
+
+(* observation: an exception with an empty message is treated as no error outside detect *)
+Theorem C18_main_report_silent_on_empty_error :
+      forall (Other : Type) (other_detector : Other -> string) (other_to_json : Other -> py json)
+         (other_generate_output : Other -> list string -> py bool) (meta : detmeta)
+         (contract_name_of : teal -> string) (root : list string) (args_json : option string)
+         (subcommand : string) (results : list (list (output Other))) (tealer_contract : py teal),
+       (subcommand =? "detect") = false ->
+       main_report Other other_detector other_to_json other_generate_output meta contract_name_of root
+         args_json subcommand results tealer_contract (Some "") = Some (nil, None).
+Proof. exact @main_report_silent_on_empty_error. Qed.
+
+(* compact number lists of the transaction-context printer *)
+Theorem C18_repr_num_list_gen_eq :
+      forall values : list Z, repr_num_list_gen values = Some (short_list values).
+Proof. exact @repr_num_list_gen_eq. Qed.
+
+(* the annotations of a block are its GroupIndex and GroupSize sets, nothing for foreign blocks *)
+Theorem C18_get_info_gen_spec :
+      forall (f : func) (r : fn_result) (bb : nat),
+       (In bb (map b_idx (fn_blocks f)) ->
+        get_info_gen f r bb =
+        Some
+          (("GroupIndex: " ++ short_list (ctx_group_indices (ctx_of r bb KSelf)))%string
+           :: ("GroupSize: " ++ short_list (ctx_group_sizes (ctx_of r bb KSelf)))%string :: nil)) /\
+       (~ In bb (map b_idx (fn_blocks f)) -> get_info_gen f r bb = Some nil).
+Proof. exact @get_info_gen_spec. Qed.
+
+Print Assumptions C18_to_json_gen_parsed.
+Print Assumptions C18_to_json_gen_paths.
+Print Assumptions C18_handle_output_gen_json.
+Print Assumptions C18_handle_output_gen_text_error.
+Print Assumptions C18_main_detect_json_filtered.
+Print Assumptions C18_main_report_gen_eq.
+Print Assumptions C18_main_report_unbound_contract.
+Print Assumptions C18_main_report_silent_on_empty_error.
+Print Assumptions C18_repr_num_list_gen_eq.
+Print Assumptions C18_get_info_gen_spec.
